@@ -337,28 +337,45 @@ class ModelCompiler:
             self.model.formulae[formula].associated_cells = associated_cells
 
     @staticmethod
+    def _copy_cell(cell):
+        """Deep copy of a cell (or range) without its syntax tree.
+
+        build_code() builds the trees of the extracted model anew; copying
+        them would recurse as deep as the formula is long (a formula of 300
+        operands exceeded the recursion limit).
+        """
+        formula = getattr(cell, 'formula', None)
+        if formula is None:
+            return copy.deepcopy(cell)
+        ast, formula.ast = formula.ast, None
+        try:
+            return copy.deepcopy(cell)
+        finally:
+            formula.ast = ast
+
+    @staticmethod
     def extract(model, focus):
         extracted_model = Model()
 
         for address in focus:
             if isinstance(address, str) and address in model.cells:
-                extracted_model.cells[address] = copy.deepcopy(
+                extracted_model.cells[address] = ModelCompiler._copy_cell(
                     model.cells[address])
 
             elif isinstance(address, str) and address in model.defined_names:
 
-                extracted_model.defined_names[address] = defn = copy.deepcopy(
-                    model.defined_names[address])
+                extracted_model.defined_names[address] = defn = \
+                    ModelCompiler._copy_cell(model.defined_names[address])
 
                 if isinstance(defn, xltypes.XLCell):
-                    extracted_model.cells[defn.address] = copy.deepcopy(
-                        model.cells[defn.address])
+                    extracted_model.cells[defn.address] = \
+                        ModelCompiler._copy_cell(model.cells[defn.address])
 
                 elif isinstance(defn, xltypes.XLRange):
                     for row in defn.cells:
                         for column in row:
-                            extracted_model.cells[column] = copy.deepcopy(
-                                model.cells[column])
+                            extracted_model.cells[column] = \
+                                ModelCompiler._copy_cell(model.cells[column])
 
         # Copy everything the cells copied so far depend on, directly or
         # through other formulas, ranges and defined names.
@@ -380,8 +397,8 @@ class ModelCompiler:
                 if name in model.defined_names:
                     defn = model.defined_names[name]
                     if name not in extracted_model.defined_names:
-                        extracted_model.defined_names[name] = copy.deepcopy(
-                            defn)
+                        extracted_model.defined_names[name] = \
+                            ModelCompiler._copy_cell(defn)
                     if isinstance(defn, xltypes.XLCell):
                         addresses = [defn.address]
                     elif isinstance(defn, xltypes.XLRange):
@@ -399,8 +416,8 @@ class ModelCompiler:
                 for address in addresses:
                     if (address in model.cells
                             and address not in extracted_model.cells):
-                        extracted_model.cells[address] = copy.deepcopy(
-                            model.cells[address])
+                        extracted_model.cells[address] = \
+                            ModelCompiler._copy_cell(model.cells[address])
                         todo.append(address)
 
         extracted_model.build_code()
